@@ -1,10 +1,11 @@
 """C01 — every value a configuration holds satisfies its field's declared constraints."""
+import json
 import os
 
 from hypothesis import strategies as st
 
 from .. import ops, refmodel, sandbox, specs, worlds
-from ..refmodel import A, REJ, U
+from ..refmodel import A, REJ, U, value_eq
 
 ID = "C01"
 LEVEL = "exploration"
@@ -194,7 +195,210 @@ def _has(spec, pred):
     return False
 
 
+# -- exhaustive: a typed container the configuration holds as its DEFAULT is edited in place ----------------------------
+HELD_CONTAINERS = ("int-list", "port-list", "str-dict", "int-dict")
+HELD_DEFAULTS = ("const", "const-empty", "function", "partial", "object", "method", "none-then-assign", "none-then-load")
+HELD_STATES = ("fresh", "after-reset", "second-config")
+HELD_PLACES = ("root", "nested", "list-item")
+
+
+def exhaustive(tier):
+    """Every typed container kind x way its held value came to be (literal default, the four callable forms, assignment,
+    load) x state of the configuration x placement x in-place mutator x offered item (bad / normalisable / good)."""
+    for cont in HELD_CONTAINERS:
+        for dflt in HELD_DEFAULTS:
+            for state in HELD_STATES:
+                for place in HELD_PLACES:
+                    yield {"mode": "held-default-inplace", "cont": cont, "dflt": dflt, "state": state, "place": place}
+    # the boundary grid of C05 (case-option spellings x choices / patterns, number bounds of a foreign type, ports, host
+    # transforms) offered through every ROUTE: whatever the configuration holds afterwards meets the field's constraints
+    from . import c05
+    for c in c05.exhaustive(tier):
+        if c["spec"]["kind"] in ("str", "loglevel", "int", "float", "port", "host"):
+            yield {"mode": "strict-grid", "spec": c["spec"], "value": c["value"]}
+
+
+def _held_case(case, R):
+    import functools
+    cc = sandbox._state["cc"]
+    cont, dflt, state, place = case["cont"], case["dflt"], case["state"], case["place"]
+    is_list = cont.endswith("list")
+    start = ([] if dflt == "const-empty" else [5, 6]) if is_list else ({} if dflt == "const-empty" else {"k": "a"} if cont == "str-dict" else {"k": 5})
+
+    def produce():
+        return type(start)(start)
+
+    class Factory:
+        def __call__(self):
+            return produce()
+
+        def make(self):
+            return produce()
+    kw = {}
+    if dflt in ("const", "const-empty"):
+        kw["default"] = produce()
+    elif dflt == "function":
+        kw["default"] = produce
+    elif dflt == "partial":
+        kw["default"] = functools.partial(lambda f: f(), produce)
+    elif dflt == "object":
+        kw["default"] = Factory()
+    elif dflt == "method":
+        kw["default"] = Factory().make
+    if cont == "int-list":
+        field = cc.ListField(cc.IntField(min=1, max=100), **kw)
+        bad, norm, good = ["x", 0, 1000, "1e3"], [("42", 42)], [7]
+    elif cont == "port-list":
+        field = cc.ListField(cc.PortField(), **kw)
+        bad, norm, good = ["http", 0, 70000, -1], [("8080", 8080)], [443]
+    elif cont == "str-dict":
+        field = cc.DictField(cc.StringField(), cc.StringField(choices=["a", "b"], transform_case="lower"), **kw)
+        bad, norm, good = ["z", "", 5], [("A", "a"), ("B", "b")], ["b"]
+    else:
+        field = cc.DictField(cc.StringField(), cc.IntField(min=1, max=100), **kw)
+        bad, norm, good = ["x", 0, 1000], [("42", 42)], [7]
+    schema = cc.Schema()
+    schema.other = cc.IntField(default=7)
+    if place == "root":
+        schema.f = field
+        owner = lambda cfg: cfg
+    elif place == "nested":
+        schema.a.b.f = field
+        owner = lambda cfg: cfg.a.b
+    else:
+        item = cc.Schema()
+        item.f = field
+        item.tag = cc.StringField()
+        schema.rows = cc.ListField(item)
+        owner = lambda cfg: cfg.rows[0]
+    R.label("held-default-inplace", "held:" + dflt, "held:" + state)
+    R.nontrivial = True
+
+    def build():
+        cfg = schema()
+        if place == "list-item":
+            cfg.rows = [{"tag": "t"}]
+        if dflt == "none-then-assign":
+            owner(cfg).f = produce()
+        elif dflt == "none-then-load":
+            tree = {"f": produce()}
+            cfg.load_tree(tree if place == "root" else {"a": {"b": tree}} if place == "nested" else {"rows": [dict(tree, tag="t")]})
+        return cfg
+    cfg = build()
+    if state == "after-reset":
+        if dflt.startswith("none-then"):
+            return
+        try:
+            owner(cfg).f = produce()
+        except Exception:
+            pass
+        cc.reset_value(owner(cfg), "f")
+    elif state == "second-config":
+        cfg = build()
+    held = owner(cfg).f
+    if not R.check(held is not None and (list(held) == start if is_list else dict(held) == start), "sweep", "held:start:" + cont,
+                   lambda: "the held %s value is %r, declared %r" % (cont, held, start)):
+        return
+    sig = "held:%s:%s" % (cont, dflt if dflt.startswith("none") or dflt.startswith("const") else "callable")
+
+    def settled(what):
+        cur = owner(cfg).f
+        vals = list(cur) if is_list else list(cur.values())
+        lo_ok = all((isinstance(v, int) and not isinstance(v, bool) and (1 <= v <= 100 if cont.startswith("int") else 1 <= v <= 65535)) if cont != "str-dict" else v in ("a", "b") for v in vals)
+        R.check(lo_ok, "sweep", sig + ":" + state,
+                lambda: "after %s on the held %s (%s default, %s, %s): it holds %r" % (what, cont, dflt, state, place, cur))
+    if is_list:
+        muts = [("append", lambda l, v: l.append(v)), ("insert", lambda l, v: l.insert(0, v)), ("extend", lambda l, v: l.extend([v])),
+                ("iadd", lambda l, v: l.__iadd__([v])), ("extend-iter", lambda l, v: l.extend(iter([v]))),
+                ("setslice", lambda l, v: l.__setitem__(slice(len(l), None), [v])), ("setitem", lambda l, v: l.__setitem__(0, v) if len(l) else l.append(v))]
+    else:
+        muts = [("setitem", lambda d, v: d.__setitem__("n", v)), ("update", lambda d, v: d.update({"n": v})), ("update-kw", lambda d, v: d.update(n=v)),
+                ("update-pairs", lambda d, v: d.update([("n", v)])), ("setdefault", lambda d, v: d.setdefault("fresh%d" % len(d), v)),
+                ("ior", lambda d, v: d.__ior__({"n": v}))]
+    for mname, mut in muts:
+        for v in bad:
+            try:
+                mut(owner(cfg).f, v)
+            except Exception:
+                pass
+            settled("%s(%r)" % (mname, v))
+        for raw, want in norm:
+            try:
+                mut(owner(cfg).f, raw)
+            except Exception as exc:
+                R.fail("accept-raises", sig, "%s(%r) on the held %s raised %r" % (mname, raw, cont, exc))
+                continue
+            settled("%s(%r)" % (mname, raw))
+            cur = owner(cfg).f
+            vals = list(cur) if is_list else list(cur.values())
+            R.check(want in vals and all(type(x) is type(want) for x in vals), "read-back", sig + ":normal",
+                    lambda: "%s(%r) on the held %s: it reads %r, normal form of the item is %r" % (mname, raw, cont, cur, want))
+        for v in good:
+            try:
+                mut(owner(cfg).f, v)
+            except Exception as exc:
+                R.fail("accept-raises", sig, "%s(%r) on the held %s raised %r" % (mname, v, cont, exc))
+        if len(owner(cfg).f) > 30:
+            owner(cfg).f.clear()
+    R.check(cfg.other == 7, "collateral", "held", "another field changed")
+
+
+def _strict_grid_case(case, R):
+    cc = sandbox._state["cc"]
+    spec = dict(case["spec"], key="f", default={"mode": "none"})
+    value = specs.realize(case["value"])
+    ctx = specs.ref_ctx()
+    R.label("strict-grid", "strict-grid:" + spec["kind"])
+    item = cc.Schema()
+    item.f = specs.build_field(cc, spec)
+    item.tag = cc.StringField(default="t")
+    schema = cc.Schema()
+    schema.f = specs.build_field(cc, spec)
+    schema.sub.f = specs.build_field(cc, spec)
+    schema.rows = cc.ListField(item)
+    schema.many = cc.ListField(specs.build_field(cc, spec))
+    schema.table = cc.DictField(cc.StringField(), specs.build_field(cc, spec))
+    verdict = refmodel.ref(spec, value, ctx)
+    if verdict[0] == REJ:
+        R.nontrivial = True
+    routes = {
+        "setattr": lambda cfg: setattr(cfg, "f", value), "setitem": lambda cfg: cfg.__setitem__("sub.f", value),
+        "load_tree": lambda cfg: cfg.load_tree({"f": value, "sub": {"f": value}}), "rows": lambda cfg: setattr(cfg, "rows", [{"f": value}]),
+        "row-append": lambda cfg: cfg.rows.append({"f": value}), "row-item": lambda cfg: (setattr(cfg, "rows", [{}]), setattr(cfg.rows[0], "f", value)),
+        "many": lambda cfg: setattr(cfg, "many", [value]), "many-append": lambda cfg: (setattr(cfg, "many", []), cfg.many.append(value)),
+        "table": lambda cfg: setattr(cfg, "table", {"k": value}), "table-set": lambda cfg: (setattr(cfg, "table", {}), cfg.table.__setitem__("k", value)),
+        "ctor": None, "loads-json": lambda cfg: cfg.loads(json.dumps({"f": value, "sub": {"f": value}}).encode(), "json"),
+    }
+    for route, act in routes.items():
+        try:
+            if route == "ctor":
+                cfg = schema(f=value)
+            else:
+                cfg = schema()
+                if route == "loads-json" and not isinstance(value, (str, int, float, bool, type(None))):
+                    continue
+                act(cfg)
+        except Exception:
+            if route == "ctor":
+                continue
+        held = [cfg.f, cfg.sub.f] + [r.f for r in (cfg.rows or [])] + list(cfg.many or []) + list((cfg.table or {}).values())
+        for h in held:
+            if h is None:
+                continue
+            v = refmodel.ref(spec, h, ctx)
+            if v[0] == U:
+                R.unknown += 1
+                continue
+            R.check(v[0] == A and value_eq(h, v[1]), "sweep", "strict-grid:%s:%s" % (spec["kind"], route),
+                    lambda: "%s%r offered %r via %s: the configuration then holds %r, which %s" % (
+                        spec["kind"], spec.get("opts"), value, route, h, "its field rejects: %s" % (v[1],) if v[0] == REJ else "is not in normal form (%r)" % (v[1],)))
+
+
 def run_case(case, R):
+    if case.get("mode") == "held-default-inplace":
+        return _held_case(case, R)
+    if case.get("mode") == "strict-grid":
+        return _strict_grid_case(case, R)
     cc = sandbox._state["cc"]
     spec = case["spec"]
     with sandbox.CaseDir() as d:
